@@ -11,11 +11,14 @@
 //!            2 (even parts build, odd parts add), merge order left-nested then right-nested.
 //!   "expr":  in = [cid, k, den, expr]; expr = [0] create | [1, e, v] add_input | [2, l, r] merge
 //!            | [3, vs] build_from_group | [4, vs] create + add_input each; out = finish outcome.
+//!            cid 8 = KMVApproxDistinctCount::new(k): out = [finish of expr, finish of the fold].
 //! outcome: integer | null (finish panicked) | {"f": hex} | sorted int array (DistinctSet) |
 //!          int array as returned (TopK).  AverageF64 values are v/den (den a power of two).
 use ibv::{Emitter, SplitMix64, Tier, drive};
 use ironbeam::collection::{CombineFn, Count, LiftableCombiner};
-use ironbeam::combiners::{AverageF64, DistinctCount, DistinctSet, Max, Min, Sum, TopK};
+use ironbeam::combiners::{
+    AverageF64, DistinctCount, DistinctSet, KMVApproxDistinctCount, Max, Min, Sum, TopK,
+};
 use serde_json::{Value, json};
 use std::panic::{AssertUnwindSafe, catch_unwind};
 
@@ -443,6 +446,22 @@ fn expr_out<V: Clone + Send + Sync + 'static, A, O, C: LiftableCombiner<V, A, O>
     finish_caught(c, acc, enc)
 }
 
+/// the values that went into an expression (same order as Coq's `avalues`)
+fn expr_values(e: &Value, out: &mut Vec<i64>) {
+    match e[0].as_i64().unwrap() {
+        0 => {}
+        1 => {
+            out.push(e[2].as_i64().unwrap());
+            expr_values(&e[1], out);
+        }
+        2 => {
+            expr_values(&e[1], out);
+            expr_values(&e[2], out);
+        }
+        _ => out.extend(ints(&e[1])),
+    }
+}
+
 fn run(kind: &str, input: &Value) -> Value {
     match kind {
         "sweep" => {
@@ -466,6 +485,15 @@ fn run(kind: &str, input: &Value) -> Value {
             let cid = input[0].as_i64().unwrap();
             let k = input[1].as_u64().unwrap() as usize;
             let den = input[2].as_i64().unwrap();
+            if cid == 8 {
+                // KMV: the expression's output next to the plain fold's (both exact f64 bits)
+                let c = KMVApproxDistinctCount::<i64>::new(k);
+                let t = expr_out(&c, &input[3], &id, &hexf);
+                let mut vals = Vec::new();
+                expr_values(&input[3], &mut vals);
+                let f = expr_out(&c, &json!([4, vals]), &id, &hexf);
+                return json!([t, f]);
+            }
             with_combiner!(cid, k, den, expr_out, &input[3])
         }
         _ => json!(["bad-kind"]),
@@ -606,12 +634,31 @@ fn generate(seed: u64, tier: Tier, em: &mut Emitter) {
         }
     }
 
+    // KMV (mergeability only): below k distinct values (exact count) and above (evictions)
+    for k in [0usize, 4, 5, 8] {
+        for e in [
+            json!([0]),
+            json!([2, [0], [3, [1, 1, 2]]]),
+            json!([2, [4, [1, 2, 3, 4, 5, 6, 7, 8, 9]], [3, [9, 8, 7, 6, 5, 10, 11]]]),
+            json!([1, [2, [3, [5, 6, 7, 8]], [2, [0], [4, [1, 2, 3, 4]]]], 6]),
+        ] {
+            emit_expr(em, 8, k, 1, e, &["boundary", "kmv"]);
+        }
+    }
+
     // 2. exhaustive sweep: every sequence up to length 6 over {-1, 0, 2}, every split into 1..4
     //    parts, 3 leaf modes, both merge orders, every combiner, TopK k = 0..n+1
-    let maxlen = 6;
+    let maxlen = if tier == Tier::Thorough { 7 } else { 6 };
     for s in all_seqs(&[-1, 0, 2], maxlen) {
         let nt = s.len() >= 2;
         em.case("sweep", json!([s, 4, 1]), nt, &["exhaustive"]);
+    }
+    if tier == Tier::Thorough {
+        // four values, up to five parts
+        for s in all_seqs(&[-2, -1, 0, 3], 5) {
+            let nt = s.len() >= 2;
+            em.case("sweep", json!([s, 5, 2]), nt, &["exhaustive", "four-values"]);
+        }
     }
     // the same over quarter-valued inputs for the mean (shorter)
     for s in all_seqs(&[-3, 1, 2], 3) {
@@ -623,7 +670,11 @@ fn generate(seed: u64, tier: Tier, em: &mut Emitter) {
     let mut rng = SplitMix64::new(seed ^ 0xC06);
     let n = if tier == Tier::Thorough { 40000 } else { 4000 };
     for _ in 0..n {
-        let cid = rng.below(9).min(7) as i64; // TopK twice as often
+        let cid = match rng.below(11) {
+            x if x < 8 => x as i64,
+            8 | 9 => 7, // TopK three times as often
+            _ => 8,     // KMV
+        };
         let len = match rng.below(4) {
             0 => rng.below(6),
             1 => rng.below(16),
@@ -646,6 +697,7 @@ fn generate(seed: u64, tier: Tier, em: &mut Emitter) {
             4 => len + 1,
             _ => rng.below(len as u64 + 2) as usize,
         };
+        let k = if cid == 8 { *rng.pick(&[0usize, 4, 5, 8, 16]) } else { k };
         let e = random_expr(&mut rng, &vals);
         emit_expr(em, cid, k, den, e, &["random"]);
     }
